@@ -421,6 +421,10 @@ class Interp:
                 self.fail("TypeError", "concatenate list and tuple", node)
             return a + b
         try:
+            if sym == "/" and isinstance(a, int) and isinstance(b, int) and not isinstance(a, bool) and b != 0 \
+                    and self.opts.get("exact_int_division", True):
+                q = fractions.Fraction(a, b)      # floats are reals: keep 1/365 exact
+                return int(q) if q.denominator == 1 else q
             return PYOPS[sym](a, b)
         except ZeroDivisionError:
             self.fail("ZeroDivisionError", "concrete", node)
